@@ -43,6 +43,7 @@ def run(P, rep, tier):
     ctx = Ctx(P)
     rep.attempt(r1_protocol_only, P, rep, ctx)
     rep.attempt(r2_ih5_implements, P, rep, ctx)
+    rep.attempt(r2b_visit_semantics, P, rep, ctx)
     rep.attempt(r3_kwargs_agree, P, rep, ctx)
     rep.attempt(r4_driver_dispatch, P, rep, ctx)
     # the IH5 driver can only behave like a plain HDF5 file if the overlay is transparent: the structural
@@ -50,7 +51,7 @@ def run(P, rep, tier):
     # are part of this check as well (rule ids C01.R1/R2/R3/R6)
     from . import c01
 
-    for fn in (c01.r1_children, c01.r2_delete_marker, c01.r3_create, c01.r6_move_copy):
+    for fn in (c01.r1_children, c01.r2_delete_marker, c01.r3_create, c01.r4_markers, c01.r6_move_copy, c01.r7_snapshot_before_mutation):
         rep.attempt(fn, P, rep, ctx)
     rep.floor("C09.R1", 60, "raw uses")
     rep.floor("C09.R2", 40)
@@ -201,6 +202,22 @@ def r2_ih5_implements(P, rep, ctx):
     for q in (f"{O}.IH5Group.attrs", f"{O}.IH5Dataset.attrs"):
         f = P.func(q)
         rep.check("IH5AttributeManager(self._record, self._gpath, self._cidx)" in norm(f.node), "C09.R2", f.qual, "attrs is the overlay attribute manager of the node", f.loc(), construct="attrs", message=f"{q} does not return the overlay attribute manager")
+
+
+def r2b_visit_semantics(P, rep, ctx):
+    """h5py semantics of visit/visititems: stop at the first callback result that is not None (identity test)."""
+    fi = P.func(f"{O}.IH5Group.visititems")
+    g = ctx.cfg(fi)
+    tests = [t for t in g.nodes if t.kind == "test" and "val" in {x.id for x in ast.walk(t.exprs[0]) if isinstance(x, ast.Name)}]
+    ok = bool(tests) and all(norm(t.exprs[0]) == "val is not None" for t in tests) and all(all(isinstance(g.nodes[b].stmt, ast.Return) and norm(g.nodes[b].stmt.value) == "val" for b, l in g.succ[t.idx] if l == "T") for t in tests)
+    rep.check(ok, "C09.R2", fi.qual, "IH5 visititems stops exactly when the callback returns something that is not None (as h5py does)", fi.loc(), construct=f"visititems stop test {[norm(t.exprs[0]) for t in tests]}",
+              message=f"IH5Group.visititems decides whether to stop with `{[norm(t.exprs[0]) for t in tests]}`: h5py stops on any result that is not None, so falsy results (0, False, '') behave differently on the two drivers")
+    d = [norm(v) for k, v in local_defs(fi).get("val", []) if v is not None]
+    rep.check(d == ["func(self._rel_path(curr._gpath), curr)"], "C09.R2", fi.qual, "callback receives the path relative to the visited group and the node", fi.loc(), construct=f"callback call {d}", message=f"visititems calls the callback as {d}")
+    v = P.func(f"{O}.IH5Group.visit")
+    rep.check("return self.visititems(lambda x, _: func(x))" in norm(v.node), "C09.R2", v.qual, "visit is visititems on the names", v.loc(), construct="visit", message="IH5Group.visit is not derived from visititems")
+    t = norm(fi.node)
+    rep.check("stack = list(reversed(self._get_children()))" in t and "stack += reversed(curr._get_children())" in t and "isinstance(curr, IH5Group)" in t, "C09.R2", fi.qual, "pre-order traversal of all descendants in alphabetical order", fi.loc(), construct="traversal order", message="visititems does not traverse all descendants depth-first in key order")
 
 
 def r3_kwargs_agree(P, rep, ctx):
